@@ -10,6 +10,7 @@ import OttoVerif.C05.Ops2
 namespace OttoVerif.C05.Driver
 open OttoVerif.F64 OttoVerif.Proto OttoVerif.C05
 
+/-- ToNumber on strings = parseNumber (value_number.go), modelled in Base/ParseNumber (= C06.stringToNumber) -/
 def env : Env := { pn := OttoVerif.PN.parseNumber }
 
 def nk? : String → Option NK
@@ -45,9 +46,6 @@ def bin? : String → Option BinOp
   | "add" => some .add | "sub" => some .sub | "mul" => some .mul | "div" => some .div | "rem" => some .rem
   | "band" => some .band | "bor" => some .bor | "bxor" => some .bxor
   | "shl" => some .shl | "shr" => some .shr | "ushr" => some .ushr | _ => none
-
-/-- code-unit order on Go strings (what ES5 §11.8.5 compares) -/
-def unitLt (a b : List Nat) : Bool := strLt (OttoVerif.Str.unitsOfBytes a) (OttoVerif.Str.unitsOfBytes b)
 
 def inRange (x : FV) : Bool := decide (-(2^63 : Int) ≤ truncInt x ∧ truncInt x < 2^63)
 
@@ -167,15 +165,11 @@ def resOut (r : Ops2.Res Ops2.Vl) : String :=
   | .refError l => "throw:ReferenceError|" ++ lg l
   | .thrown v l => "throw:" ++ valOut v ++ "|" ++ lg l
 
-def devEx (e : Ops2.Ex) : String :=
-  let ds := (if Ops2.devCond e then ["cond_reference"] else []) ++ (if Ops2.devPlus e then ["plus_getvalue_late"] else [])
-  if ds.isEmpty then "-" else ",".intercalate ds
-
 def handle2 (ws : List String) : String :=
   match ws with
   | "ex" :: r =>
     match ex? r with
-    | some (e, []) => reply (resOut (Ops2.run env e)) (resOut (Ops2.Spec.run env e)) (devEx e)
+    | some (e, []) => reply (resOut (Ops2.run env e)) (resOut (Ops2.Spec.run env e)) "-"
     | _ => "bad-op"
   | ["instr", a, n, l] =>
     match val? a, n.toNat?, layer? l with
@@ -207,10 +201,7 @@ def handle (ws : List String) : String :=
     | none => "bad-op"
   | ["cmp", c, a, b] => match cmp? c, val? a, val? b with
     | some c, some x, some y =>
-      let dev := match x, y with
-        | .str p, .str q => if strLt p q != unitLt p q ∨ strLt q p != unitLt q p then "strcmp_astral" else "-"
-        | _, _ => "-"
-      reply (boolOut (calculateComparison env c x y)) (boolOut (Spec.compare env unitLt c x y)) dev
+      reply (boolOut (calculateComparison env c x y)) (boolOut (Spec.compare env Spec.unitLt c x y)) "-"
     | _, _, _ => "bad-op"
   | ["same", a, b] => match val? a, val? b with
     | some x, some y => reply (boolOut (sameValue env x y)) (boolOut (Spec.sameValue env x y)) "-"
